@@ -740,8 +740,9 @@ def run(ctx):
     rule_criterion_operand(ctx, repo)
     rule_flag_reset(ctx, repo)
     rule_newton_exits(ctx, repo)
-    from rules import c17_nk
+    from rules import c17_nk, c17_update
     c17_nk.run_rule(ctx, repo)
+    c17_update.run_rule(ctx, repo)
     rule_nan_measure(ctx, repo)
     rule_exit_monotone(ctx, repo)
     # sentinel propagation: reuse the C16 sibling rules under this property's name
